@@ -2,7 +2,8 @@ import AkVerif.Model.Safe
 /-! line protocol for the decoder-safety models (C10)
 
 `c10 <entry> <cfg> <crc> <magic> <pos> <buf> <oracle>`
-* entry : cyD cyL cyM pyD pyL pyM (batch / memory-records decoders), cyV pyV (varint at `pos`)
+* entry : cyD cyL cyM cyN pyD pyL pyM pyN (batch / memory-records decoders; N = `next_batch()` until
+          `None` instead of the `has_next()` guard), cyV pyV (varint at `pos`)
 * cfg   : 8 characters 0/1 = the `Cfg` flags in declaration order
 * crc   : 1 = call `validate_crc()` before iterating
 * magic : constructor argument of the legacy batch classes (ignored elsewhere)
@@ -98,9 +99,11 @@ def handle : List String → Option String
     | "cyD" => some (showBatch (cyDefaultBatch cfg codec wantCrc b))
     | "cyL" => some (showBatch (cyLegacyBatch cfg codec wantCrc magic b))
     | "cyM" => some (showMem (cyMemory cfg codec wantCrc b))
+    | "cyN" => some (showMem (cyMemoryN cfg codec wantCrc b))
     | "pyD" => some (showBatch (pyDefaultBatch codec wantCrc b))
     | "pyL" => some (showBatch (pyLegacyBatch cfg codec wantCrc magic b))
     | "pyM" => some (showMem (pyMemory cfg codec wantCrc b))
+    | "pyN" => some (showMem (pyMemoryN cfg codec wantCrc b))
     | "cyV" => some (showVar (cyVarintPy cfg b pos))
     | "pyV" => some (showVar (pyVarint b pos))
     | _ => none
